@@ -120,6 +120,11 @@ def build_slice(path, entries, tier, log):
     if os.path.exists(ll):
         return ll, wd
     os.makedirs(wd, exist_ok=True)
+    import fcntl
+    lock = open(os.path.join(wd, ".lock"), "w")
+    fcntl.flock(lock, fcntl.LOCK_EX)       # one builder per slice; the others wait and reuse
+    if os.path.exists(ll):
+        return ll, wd
     hb = P.compile_harness(path, wd, extra_flags=["-DVF_TIER=%d" % (2 if tier == "thorough" else 1)])
     linked = os.path.join(wd, "linked.bc")
     P.run([P.LLVM_LINK, lib, "--override", hb, "-o", linked])
@@ -152,6 +157,11 @@ def build_slice(path, entries, tier, log):
 
 def build_native(ll, wd, entry, asan=False):
     exe = os.path.join(wd, entry + (".asan" if asan else "") + ".exe")
+    if os.path.exists(exe):
+        return exe
+    import fcntl
+    lock = open(os.path.join(wd, ".lock." + entry), "w")
+    fcntl.flock(lock, fcntl.LOCK_EX)
     if os.path.exists(exe):
         return exe
     obj = os.path.join(wd, entry + ".vfn.o")
